@@ -266,6 +266,12 @@ class MotionCommander:
         distance = math.sqrt(distance_x_m * distance_x_m +
                              distance_y_m * distance_y_m +
                              distance_z_m * distance_z_m)
+        if distance == 0.0:
+            # Nothing to travel: there is no direction to normalize and no
+            # time to wait (landing from height 0 ends up here)
+            self.stop()
+            return
+
         flight_time = distance / velocity
 
         velocity_x = velocity * distance_x_m / distance
